@@ -9,6 +9,7 @@ import (
 	"bufio"
 	"bytes"
 	"fmt"
+	"github.com/storacha/go-ucanto/core/car"
 	"io"
 	"math/rand"
 	"net/http"
@@ -193,6 +194,14 @@ func c11Items(seed int64, tier string) []*c11Item {
 			id++
 		}
 	}
+	// a delegation that cites ITSELF as its proof: its block travels under a CID whose sha2-256 digest is truncated to
+	// length 0 (bytes 01 71 12 00), which every byte string "matches", and that same CID is its only proof link
+	{
+		b, _ := c11Base(seed, id)
+		b.SelfRef = true
+		items = append(items, &c11Item{Kind: "batch-nomodel", Label: "self-referential-proof (zero-length digest CID)", Batch: b})
+		id++
+	}
 	// the execute list names an invocation more than once (adjacent and separated repeats)
 	for k := 0; k < 3; k++ {
 		b, _ := c11Base(seed, id)
@@ -261,6 +270,32 @@ func c11Items(seed int64, tier string) []*c11Item {
 					}
 					items = append(items, &c11Item{Kind: "raw", Label: fmt.Sprintf("raw-%d", i), Raw: mb, Hdr: req.Headers()})
 				}
+				// arbitrary Content-Type / Accept header values (several lines, parameters without "=", odd separators,
+				// control characters) with a valid and with an empty body: whatever the answer, the process must survive
+				nh := 300
+				if tier == "thorough" {
+					nh = 5000
+				}
+				for i := 0; i < nh; i++ {
+					h := http.Header{}
+					if cts := c20RandHeader(r, false); r.Intn(3) != 0 && len(cts) > 0 {
+						h["Content-Type"] = cts
+					} else {
+						h.Set("Content-Type", car.ContentType)
+					}
+					if acc := c20RandHeader(r, true); len(acc) > 0 {
+						h["Accept"] = acc
+					}
+					if r.Intn(4) == 0 {
+						// parameters with no "=", empty parameters, a bare q
+						h["Accept"] = []string{pick(r, []string{car.ContentType, "*/*", "application/*"}) + pick(r, []string{";", ";q", ";v1;q=0.5", ";;", "; =", ";q=", ";=1", "; q ; v"})}
+					}
+					bodyv := body
+					if r.Intn(3) == 0 {
+						bodyv = []byte{}
+					}
+					items = append(items, &c11Item{Kind: "rawhdr", Label: fmt.Sprintf("headers-%d", i), Raw: bodyv, Hdr: h})
+				}
 			}
 		}
 	}
@@ -311,7 +346,7 @@ func c11Child(args []string) int {
 				os.WriteFile(filepath.Join(out, fmt.Sprintf("case_%06d.txt", i)), []byte(it.Batch.Coq(obs)), 0o644)
 			}
 			fmt.Fprintf(w, "\nDONE %d batch err=%q panic=%q ms=%d classes=%s\n", i, obs.ExecErr, obs.Panic, time.Since(t0).Milliseconds(), strings.Join(cl, ","))
-		case "raw":
+		case "raw", "rawhdr":
 			if rawSrv == nil {
 				b, _ := c11Base(seed, 999999)
 				b.W.Build()
@@ -319,7 +354,9 @@ func c11Child(args []string) int {
 			}
 			status, errs := 0, ""
 			// the body as THIS process built it (token blocks carry wall-clock fields, so the parent's copy may differ)
-			bytesC11Keep(out, tier, items, i)
+			if it.Kind == "raw" {
+				bytesC11Keep(out, tier, items, i)
+			}
 			res, err := rawSrv.Request(thttp.NewHTTPRequest(bytes.NewReader(it.Raw), it.Hdr))
 			if err != nil {
 				errs = "error"
@@ -382,6 +419,11 @@ func init() {
 					f := strings.Fields(line)
 					n, _ := strconv.Atoi(f[1])
 					done[n] = line
+					if strings.Contains(line, `err="hang`) && n < len(items) {
+						// the in-process watchdog gave up on this request: the server never answered it
+						crashes = append(crashes, crash{Item: n, Label: items[n].Label, Kind: "hang",
+							Log: "the server did not answer the request within the watchdog period (the handling goroutines were still running)"})
+					}
 				case strings.HasPrefix(line, "END "):
 					finished = true
 				}
@@ -417,11 +459,11 @@ func init() {
 		var cases []string
 		nraw, rawStatus := 0, map[string]int{}
 		for i, it := range items {
-			if it.Kind == "raw" {
+			if it.Kind == "raw" || it.Kind == "rawhdr" {
 				nraw++
 				if l, ok := done[i]; ok {
 					f := strings.Fields(l)
-					rawStatus[f[3]]++
+					rawStatus[it.Kind+" "+f[3]]++
 				}
 				continue
 			}
